@@ -275,7 +275,11 @@ impl SanitizerConfig {
                         && self.use_strict()
                         && ALLOWED_ELEMENTS_STRICT.contains(element_name);
 
-                    if !list_allowed && !mode_allowed {
+                    // An element of foreign content (SVG, MathML) is not the HTML element with the
+                    // same local name, although it would be written back as that element.
+                    let is_html_element = &*name.ns == "http://www.w3.org/1999/xhtml";
+
+                    if !is_html_element || (!list_allowed && !mode_allowed) {
                         return NodeAction::Ignore;
                     }
                 }
